@@ -162,6 +162,7 @@ def run(ctx):
     ctx.coverage["response_fields_per_version"] = {k: enc.get(k) for k in (
         "compared", "byte_equal", "gating_faults", "differ", "cells_op_version_outcome")}
     ctx.coverage["evaluations"] += enc.get("compared") or 0
+    session_part(ctx)
     if divs and not ctx.violations:
         d = divs[0]
         ctx.report("correspondence:engine-model", "model and engine disagree on the version matrix",
@@ -169,14 +170,120 @@ def run(ctx):
                     "lines": d["history"][-3:], "impl": d["impl"], "model": d["model"]}, no_input=True)
 
 
+# ------------------------------------------------------------------ the session: version of session-built answers
+def session_part(ctx):
+    """One connection, requests of DIFFERENT protocol versions: every answer the real KmipSession sends to a request it
+    could decode - including the errors the session builds itself (stale time stamp, missing batch item ids, response
+    larger than the client's maximum, refused version) - carries the protocol version of THAT request."""
+    import random
+    import impl_session as S
+    import gen_session as G
+    from props import c12
+    rnd = random.Random(ctx.seed * 131 + 16)
+    q = {"op": "query", "bid": None, "crypto": None, "functions": [1, 2, 3]}
+    get = {"op": "get", "bid": None, "crypto": None, "uid": "1", "format": None, "compression": False, "wrap": None}
+    loc = {"op": "locate", "bid": None, "crypto": None, "max": None, "offset": None, "attrs": []}
+
+    def second(kind, v):
+        if kind == "ok":
+            return G.mkreq(v, [dict(rnd.choice([q, loc]))])
+        if kind == "stale":
+            return G.mkreq(v, [dict(q)], ts=rnd.choice([1000, 10 ** 9]))
+        if kind == "future":
+            return G.mkreq(v, [dict(q)], ts=2 ** 40)
+        if kind == "toolarge":
+            return G.mkreq(v, [dict(rnd.choice([q, get] if v < 20 else [q]))], maxsize=rnd.choice([0, 8, 64]))
+        if kind == "nobid":
+            return G.mkreq(v, [dict(q), dict(loc)])
+        raise ValueError(kind)
+    kinds = ["ok", "stale", "future", "toolarge", "nobid"]
+    pairs = [(a, b) for a in VERS for b in VERS if a != b]
+    if ctx.tier != "quick":
+        pairs = pairs * 6
+    rig = S.Rig()
+    n = served = 0
+    by_kind = {}
+    answers = {}
+    try:
+        snap = c12.setup_base(rig)
+        for a, b in pairs:
+            for kind in kinds:
+                reqs = [G.mkreq(a, [dict(q)]), second(kind, b), G.mkreq(a, [dict(loc)])]
+                if rnd.random() < 0.3:
+                    reqs.append(second(rnd.choice(kinds), rnd.choice(VERS)))
+                try:
+                    frames = [G.encode_request(r) for r in reqs]
+                except Exception:
+                    continue
+                rig.restore(snap)
+                res = rig.run_session([b"".join(frames)], S.make_cert(), digests=False)
+                obs = c12.observe(rig, res)
+                handled = [o for o in obs if o["k"] == "handled"]
+                n += 1
+                by_kind[kind] = by_kind.get(kind, 0) + 1
+                for k, (o, r) in enumerate(zip(handled, reqs)):
+                    served += 1
+                    want = [r["version"] // 10, r["version"] % 10]
+                    if o["obs"] is None:
+                        continue
+                    it0 = o["obs"]["items"][0] if o["obs"]["items"] else {}
+                    key = "%s/%s" % (it0.get("status"), it0.get("reason"))
+                    answers[key] = answers.get(key, 0) + 1
+                    if o["obs"]["ver"] != want:
+                        ctx.report("c16:session-answer-in-another-version",
+                                   "request %d of the connection was sent under %s and answered under %s (%s)"
+                                   % (k, want, o["obs"]["ver"], key),
+                                   {"kind": "session-versions", "frames": [f.hex() for f in frames], "index": k,
+                                    "versions": [r["version"] for r in reqs]})
+                if len(handled) != len(reqs):
+                    ctx.report("c16:session-frames-lost", "%d requests sent, %d answered" % (len(reqs), len(handled)),
+                               {"kind": "session-versions", "frames": [f.hex() for f in frames], "index": -1,
+                                "versions": [r["version"] for r in reqs]})
+    finally:
+        rig.close()
+    ctx.coverage["session_version_switch_streams"] = n
+    ctx.coverage["session_version_switch_requests"] = served
+    ctx.coverage["session_version_switch_kinds"] = by_kind
+    ctx.coverage["session_version_switch_answers"] = answers
+    ctx.coverage["evaluations"] += served
+
+
+def replay_session(ctx, rep):
+    import impl_session as S
+    from props import c12
+    r = rep["replay"]
+    frames = [bytes.fromhex(f) for f in r["frames"]]
+    rig = S.Rig()
+    try:
+        snap = c12.setup_base(rig)
+        rig.restore(snap)
+        res = rig.run_session([b"".join(frames)], S.make_cert(), digests=False)
+        handled = [o for o in c12.observe(rig, res) if o["k"] == "handled"]
+        bad = []
+        for k, (o, v) in enumerate(zip(handled, r["versions"])):
+            if o["obs"] is not None and o["obs"]["ver"] != [v // 10, v % 10]:
+                bad.append("request %d sent under %s answered under %s" % (k, v, o["obs"]["ver"]))
+        if len(handled) != len(frames):
+            bad.append("%d requests sent, %d answered" % (len(frames), len(handled)))
+        for b in bad:
+            print("  session:", b)
+        return not bad
+    finally:
+        rig.close()
+
+
 def search(ctx, broken):
     matrix = engine_check.run_many([ctx.seed * 31 + k for k in range(4)], 0, {"builtin_policies_only": True},
                                    True, "props.c16.matrix_builder")
     engine_check.report_monitor_failures(ctx, matrix, MONITORS)
     engine_check.standard_search(ctx, {"groups": 0.0}, MONITORS, 30)
+    ctx.coverage.setdefault("evaluations", 0)
+    session_part(ctx)
 
 
 def replay(ctx, rep):
+    if (rep.get("replay") or {}).get("kind") == "session-versions":
+        return replay_session(ctx, rep)
     if (rep.get("replay") or {}).get("kind") == "encode":
         import encode_check
         return encode_check.replay_case(ctx, rep)
